@@ -36,7 +36,7 @@ man = dict(
                baseline_off_cmd="cd /repo && /venv/bin/python -m pytest -ra -q -p no:cacheprovider --timeout=900 --continue-on-collection-errors",
                source_commits=[], add_only=True),
     engines=[dict(name="mc", path="/verif/mc", serves_properties=sorted(claimed),
-                  kind_free_text="hand-written bounded-exhaustive explorers in Python: E1 case-space enumeration with exact reference models, E2 breadth-first search over estimator call histories, E3 enumeration of dask task orders and method-boundary interleavings; 16 worker processes, static sharding by case index")],
+                  kind_free_text="hand-written bounded-exhaustive explorers in Python: E1 case-space enumeration with exact reference models, E2 breadth-first search over estimator call histories, E3 enumeration of dask task orders, method-boundary and line-granular interleavings (iterative preemption bounding) and deviation-bounded environment answers; 16 worker processes, static sharding by case index")],
     checks=checks,
     notes=NOTES,
     not_applicable=na,
